@@ -201,6 +201,8 @@ class DualQuaternion:
             v = base.getvector(right, 3)
             vp = left * DualQuaternion.Pure(v) * left.conj()
             return vp.dual.v
+        else:
+            raise ValueError('bad operands to dual quaternion *')
 
     def matrix(self):
         """
